@@ -78,6 +78,8 @@ func (k Keeper) AddAllowedBidders(ctx context.Context, auctionId uint64, allowed
 		}
 		// Store the canonical form of the address (see PlaceBid)
 		ab.Bidder = bidder.String()
+		// The entry belongs to the auction it is stored under, whatever its own field says
+		ab.AuctionId = auctionId
 		if err := k.AllowedBidder.Set(ctx, collections.Join(auctionId, bidder), ab); err != nil {
 			return err
 		}
